@@ -49,7 +49,19 @@ Real == Guarded /\ ResOk /\ PostOk /\ AllInv
 
 Exp == IF Ev.a = "Sense" /\ KindsOk THEN SenseRes(Ev.kinds) ELSE [res |-> "-", idx |-> 0]
 FailedInv == SelectSeq(InvNames, LAMBDA n : ~ENABLED (Guarded /\ ResOk /\ PostOk /\ InvP(n)))
+\* the contract evaluated on what was OBSERVED (when the real outcome is not the one the model produces)
+Obs == [op |-> CASE Ev.a = "Sense" -> "sense" [] Ev.a = "Listen" -> "listen" [] OTHER -> "exchange",
+        kinds |-> Ev.kinds, iters |-> Ev.iters, res |-> Ev.res, idx |-> Ev.idx, sent |-> Ev.sent, had |-> target]
+ObsBroken ==
+    SelectSeq(InvNames, LAMBDA n :
+        CASE n = "FirstFound" -> ~FirstFoundP(Obs)
+          [] n = "UnsupportedIgnored" -> ~UnsupportedIgnoredP(Obs)
+          [] n = "Raises" -> ~RaisesP(Obs)
+          [] n = "MuteWhenNone" -> ~MuteWhenNoneP(Obs, Ev.field) \/ (Ev.a = "Sense" /\ Ev.res = "none" /\ ~Ev.muted)
+          [] n = "TargetFresh" -> ~TargetFreshP(Obs, Ev.target)
+          [] n = "ExchangeOk" -> ~ExchangeP(Obs, target))
 Why == IF ~ENABLED Guarded THEN <<"guard", [nops |-> nops]>>
+       ELSE IF ~ENABLED (Guarded /\ ResOk /\ PostOk) /\ ObsBroken # <<>> THEN <<"inv", ObsBroken>>
        ELSE IF ~ENABLED (Guarded /\ ResOk) THEN <<"result", [expected |-> Exp, target |-> target, sent |-> SentFor(target)]>>
        ELSE IF ~ENABLED (Guarded /\ ResOk /\ PostOk) THEN <<"post", [target |-> target, field |-> field, expected |-> Exp]>>
        ELSE <<"inv", FailedInv>>
